@@ -34,6 +34,10 @@ func NewHistGen(g *Gen, ncoll int, critDepth int) *HistGen {
 	}
 	// neighbours in the order, so that comparisons discriminate
 	h.Pool = append(h.Pool, int64(5), float64(5), uint64(5), int64(6), "a", "ab", nil)
+	if !g.Dm.IntsWithin2p53 {
+		// integer extremes meet each other: int64 min/max against uint64 values above MaxInt64
+		h.Pool = append(h.Pool, uint64(1<<63), uint64(1<<63+5), uint64(math.MaxUint64), int64(math.MaxInt64), int64(math.MinInt64), uint64(math.MaxUint64))
+	}
 	if g.pick(2) == 0 {
 		h.Pool = append(h.Pool, []interface{}{int64(1), "a"}, []interface{}{}, map[string]interface{}{"a": int64(1)})
 	}
